@@ -757,6 +757,25 @@ def eval_polygon(ctx, case):
     normal = case["normal"]
     d = gen.diameter(ref)
     A, P = polygon_reference(ref)
+    # law from theorem `spheropolygon_iq_mono` (Props/C11): on ONE object, growing the rounding radius through the
+    # radius setter never lowers iq (closed form 1 - (P^2 - 4 pi A) / P_r^2), starting at the core's own value
+    try:
+        spm = coxeter.shapes.ConvexSpheropolygon(inp, 0.0, normal=normal)
+        prev, seen = float(spm.polygon.iq), []
+        for r in sorted(set(float(x) for x in case["radii"])):
+            spm.radius = r
+            cur = float(spm.iq)
+            seen.append([r, cur])
+            want = 1.0 - (P * P - 4 * math.pi * A) / (P + 2 * math.pi * r) ** 2
+            if not (cur >= prev - 1e-12 and cur <= 1 + 1e-12 and abs(cur - want) <= 1e-9):
+                ctx.fail("ConvexSpheropolygon.iq:monotone-in-radius", "iq read after the radius setter is not "
+                         "monotone in the radius / differs from 1 - (P^2 - 4 pi A) / (P + 2 pi r)^2", case,
+                         [seen, prev, want])
+                break
+            prev = cur
+    except Exception as e:
+        ctx.fail("ConvexSpheropolygon:raises", "radius setter / iq raised %s on a convex core" % exc_kind(e), case,
+                 repr(e))
     for r in case["radii"]:
         for forced_cw in ([False, True] if case.get("also_cw") else [False]):
             try:
